@@ -3,6 +3,7 @@
  * the equation and unknown counters (vnacal_new_internal.h).
  *
  * Input: one operation per line (tokens separated by blanks)
+ *   pget K                    value of parameter slot K at the calibration frequencies
  *   vpar K N f.. re im ..     slot K = vnacal_make_vector_parameter (table of N points)
  *   new TYPE R C F            start a scenario (frees the previous one); F frequencies 1e9, 2e9, ...
  *   nofreq TYPE R C F         same but vnacal_new_set_frequency_vector is not called
@@ -405,6 +406,15 @@ int main(void)
 	    for (int f = 0; f < calp->cal_frequencies; ++f)
 		for (int t = 0; t < calp->cal_error_terms; ++t)
 		    printf(" %.17g %.17g", creal(calp->cal_error_term_vector[t][f]), cimag(calp->cal_error_term_vector[t][f]));
+	    printf("\n");
+	} else if (strcmp(op, "pget") == 0) {
+	    /* pget K : the value of parameter slot K at every calibration frequency (vnacal_get_parameter_value) */
+	    int k = nexti();
+	    printf("G %d %d", k, cur_f);
+	    for (int f = 0; f < cur_f; ++f) {
+		double complex v = vnacal_get_parameter_value(vcp, slots[k], fvec[f]);
+		printf(" %.17g %.17g", creal(v), cimag(v));
+	    }
 	    printf("\n");
 	} else if (strcmp(op, "apply") == 0) {
 	    int ports = cur_r > cur_c ? cur_r : cur_c;
